@@ -307,6 +307,19 @@ class _State:
                     return res[0]
                 if res:
                     return _Alts(res)
+            # a call through a name bound to one of several builders (build = _a if c else _b; build(x)): any of them
+            if len(tg) > 1 and all(em.is_builder(em.p.funcs[t]) for t in tg):
+                allres = []
+                for t in tg:
+                    g = em.p.funcs[t]
+                    res = em.build(g, {})
+                    if any(isinstance(r, _ElemList) for r in res):
+                        raise AnalysisError(f"{f.loc(e)}: builder {g.qual} (one of several alternatives) returns an element list")
+                    for r in res:
+                        _rebase(r, ctx)
+                    allres += res
+                if allres:
+                    return allres[0] if len(allres) == 1 else _Alts(allres)
         return None
 
     # -------------------------------------------------------------- builder statements
